@@ -137,3 +137,19 @@ func (s *Server) VerifFailQuestionablePing(addr Addr, id [20]byte) {
 		n.failedLastQuestionablePing = true
 	})
 }
+
+// VerifPending lists the outstanding transactions as (remote address string, t).
+func (s *Server) VerifPending() (out [][2]string) {
+	s.mu.Lock()
+	defer s.mu.Unlock()
+	for _, k := range s.transactions.VerifKeys() {
+		out = append(out, [2]string{k.RemoteAddr, k.T})
+	}
+	sort.Slice(out, func(i, j int) bool {
+		if out[i][0] != out[j][0] {
+			return out[i][0] < out[j][0]
+		}
+		return out[i][1] < out[j][1]
+	})
+	return
+}
